@@ -507,7 +507,9 @@ theorem nv_ll1lib_parse : ∃ t, LL1Lib.parse g3 ["a", "c", "b"] 50 = some (some
   rw [htb] at hpl
   simp only [Option.bind_some] at hpl
   unfold LL1Lib.parse
-  rw [htb, hs]
+  rw [hs]
+  simp only
+  rw [htb]
   simp only [hpl]
   simp [buildTree, buildTree.sons]
 theorem nv_llParse : (g3.llParse ["a", "c", "b"] 50).isSome := by decide +kernel
